@@ -29,7 +29,7 @@ def expname(pname):
 class C04(Check):
     ID = 'C04'
     TRACE_FILES = ('protocol/dispatcher.py', 'modulebase.py')
-    TIERS = {'quick': {'runs': 3000, 'wall': 75}, 'thorough': {'runs': 300000, 'wall': 800}}
+    TIERS = {'quick': {'runs': 9000, 'wall': 75}, 'thorough': {'runs': 300000, 'wall': 800}}
     RULE = ('case = 1..3 generated module classes (full feature mix) + <= 40 change/do requests from 1..3 clients with '
             'payloads from the boundary catalogue of the described datainfo (valid / wrong JSON kind / out of range / '
             'wrong length / unknown member / partial struct / null) aimed at exported, unexported, misspelt and '
